@@ -145,6 +145,10 @@ def directed_shared_lambda(ctx):
 
 
 def shard_main(ctx):
+    if ctx.shard == 1 % ctx.nshards:
+        from ..core import repo_tests_under_monitors
+
+        repo_tests_under_monitors(ctx, "C11")
     if ctx.shard == 0:
         directed(ctx)
         directed_shared_lambda(ctx)
